@@ -2,13 +2,16 @@ import Okane.Drv.IOUtil
 import Okane.Drv.DecodeSyntax
 import Okane.Model.Parse
 import Okane.Model.Unparse
+import Okane.Lemmas.C05Txn
+import Okane.Lemmas.ExprParse
 /-!
 Driver for C05 (same record formats as `harness/src/c05.rs`).
 
 `drv c05 parse` — case: `<enc(text)>`; record: `<start>:<end> <entry sexp> | ... # done | # err <off> <end> <line> | # panic .. | # fuel`
 `drv c05 fmt`   — case: `<enc(text)>`; record: `ok <enc(formatted)>` | `err parse` | `panic ..`
 `drv c05 wf`    — case: `<enc(text)>`; record: `wf` | `notwf <index of first entry violating WFEntry>` | `noparse`
-                  (the image property: what the model parser returns satisfies the printer's well-formedness predicate)
+                  (the image property: what the model parser returns satisfies the printer's well-formedness predicate `wfEntry`
+                  and `plainEntry` — the hypotheses of theorem C05_entry / C05_roundtrip)
 -/
 namespace Okane.Drv.C05
 open Okane Okane.Parse
@@ -44,7 +47,8 @@ def wfStep (line : String) : String :=
   | some text =>
     match parseEntries text.toList with
     | .ok es =>
-      match (es.zipIdx.find? fun (e, _) => !Unparse.wfEntry (Unparse.canonEntry e)) with
+      match (es.zipIdx.find? fun (e, _) => !(Unparse.wfEntry (Unparse.canonEntry e) &&
+          (Unparse.exprsOfEntry (Unparse.canonEntry e)).all ExprParse.plainV)) with
       | none => "wf"
       | some (_, i) => s!"notwf {i}"
     | _ => "noparse"
